@@ -10,6 +10,8 @@
 -/
 import ClarabelProofs.Lemmas.LoopPrefix
 import ClarabelProofs.Lemmas.LoopStep
+import ClarabelProofs.Lemmas.LoopSoc
+import ClarabelProofs.Props.C15
 
 namespace Clarabel.C07
 open Clarabel Clarabel.Loop Clarabel.Loop.Step
@@ -113,6 +115,32 @@ example : calcStepLength (1 : ℝ) 1 (-2) 1 100 (fun a => (a, a)) true (99 / 100
 example : ConeStepOk (fun a : ℝ => (a, a)) := fun a ha => ⟨ha, le_refl _, ha, le_refl _⟩
 
 end field
+
+section soc
+open Clarabel.Soc
+
+/-- [R] `C07.interior_preserved` (second-order cone): for `x ∈ int K`, any direction `y` and
+`αmax ≥ 0`, with `t` the value `_step_length_soc_component` returns (safe and tight by
+`C15.soc_step_safe_tight`), every step `0 ≤ a ≤ f·t` with `max_step_fraction = f < 1` lands
+strictly inside the cone: `x + a·y ∈ int K`. -/
+theorem interior_preserved_soc (x0 : ℝ) (x1 : List ℝ) (y0 : ℝ) (y1 : List ℝ) (amax f a : ℝ)
+    (hx : Interior x0 x1) (hlen : x1.length = y1.length) (ham : 0 ≤ amax)
+    (hf0 : 0 < f) (hf1 : f < 1) (ha0 : 0 ≤ a) :
+    ∃ t, stepLengthComponentCore x0 x1 y0 y1 amax = .ok t ∧ 0 ≤ t ∧ t ≤ amax ∧
+      (a ≤ f * t → Interior (x0 + a * y0) (axpyL x1 a y1)) := by
+  obtain ⟨t, h1, h2, h3, h4, _⟩ := C15.soc_step_safe_tight x0 x1 y0 y1 amax hx hlen ham
+  refine ⟨t, h1, h2, h3, fun hle => ?_⟩
+  by_cases ht : t = 0
+  · have : a = 0 := by rw [ht] at hle; simp at hle; linarith
+    rw [this, axpyL_zero x1 y1 hlen]; simpa using hx
+  · have htpos : 0 < t := lt_of_le_of_ne h2 (Ne.symm ht)
+    have hat : a < t := lt_of_le_of_lt hle (by nlinarith)
+    exact interior_of_segment x0 x1 y0 y1 t a hx hlen (h4 t h2 (le_refl _)) ha0 hat
+
+/-- non-vacuity: `x = (2, [1])`, `y = (−1, [0])`, `αmax = 1`: interior start, step towards the boundary -/
+example : Interior (2 : ℝ) [1] := by constructor <;> norm_num [dotL, Vec.dot]
+
+end soc
 
 section structural
 set_option linter.unusedSectionVars false
